@@ -6,7 +6,8 @@ TOC = "crates/jxl-frame/src/data/toc.rs"; TOCM = "kani/jxl-frame/toc.rs"
 CANARIES["jxl-frame"] = dict(anchor=FH, module=FHM, harness="canary", kind="complete", fns=[], timeout=120)
 
 # ---- header.rs: composition predicates --------------------------------------------------------------------------
-K("fh.full_image", ["C05", "C01"], "jxl-frame", FH, FHM, "full_image_contract", "complete",
+# (C14 added by the orchestrator: resets_canvas, derived from test_full_image, decides which header fields are present)
+K("fh.full_image", ["C05", "C14", "C01"], "jxl-frame", FH, FHM, "full_image_contract", "complete",
   ["FrameHeader::test_full_image", "FrameHeader::resets_canvas"],
   "no precondition beyond image size >= 1 (all i32 offsets, all u32 sizes, all 5 blend modes, have_crop): "
   "test_full_image <=> every canvas sample [0,W)x[0,H) lies in the frame rectangle [x0,x0+w)x[y0,y0+h) (symbolic sample for =>, "
